@@ -92,7 +92,11 @@ func (proj *Project) builtin_label(thread *starlark.Thread, fn *starlark.Builtin
 
 	components := label.Split(l.Package)[1:]
 	if info, err := os.Stat(filepath.Join(proj.root, filepath.Join(components...), l.Name)); err == nil && info.IsDir() {
-		l.Package, l.Name = l.Package+"/"+l.Name, ""
+		pkg, err := label.Join(l.Package, l.Name)
+		if err != nil {
+			return nil, err
+		}
+		l.Package, l.Name = pkg, ""
 	}
 
 	return starlark.String(l.String()), nil
